@@ -17,14 +17,14 @@ CLAIMS = {
          "from solve are documented/opt-in; exit_info is never None where it is dereferenced; no local can be read before assignment (exceptions frozen with reasons, their "
          "premises such as a parameter lower bound re-checked); every parameter update made by the package itself is guarded so that it cannot be a second update of a key the user set (truth-table entailment for flags); each type validator "
          "accepts only when isinstance(value, type) holds for the value it was given; the restart geometry loop cannot index past its list; the asserted precondition of the coordinate "
-         "initialiser is established by solve for the npt of every run (validation guard + data-flow over later assignments). Not a claim about implicit NumPy/SciPy exceptions.",
+         "initialiser is established by solve for the npt of every run (validation guard + data-flow over later assignments); shapes of x0/bounds/scaling are validated before any arithmetic that combines them; the rhobeg-vs-bound-gap test is made in the coordinates rhobeg lives in. Not a claim about implicit NumPy/SciPy exceptions.",
          "Trusted: CPython ast, purpose-built receiver resolution (0 unresolved calls, reported in evidence), frozen table of documented invalid-argument classes in dfv/tables.py.",
          "DESIGN.md 4/C07"),
  "C20": ("AST table agreement (to_dict / from_dict / __init__ / __str__), nullable-flow of None->NaN per field, belief-based (contradiction) guard analysis on __str__'s CFG, "
          "value-flow query that no raw return value of objfun/h/prox_uh/nsamples reaches a result field by plain copies",
          "Static decision of the structural clauses of the JSON round trip: keys written = keys read = constructor fields, each routed to the "
          "field of the same name; only plain data leave to_dict and NaN replacement covers the whole dict; None is mapped back to NaN for every "
-         "float-valued field; __str__ never applies a numeric conversion or len() to a possibly-None field; diagnostic columns hold scalars and table rows are uniquely labelled; NaN replacement visits every "
+         "float-valued field; __str__ never applies a numeric conversion or len() to a possibly-None field; diagnostic columns hold scalars, table rows are uniquely labelled and an empty table is never summarised; NaN replacement visits every "
          "element of nested containers; integer Model arrays keep an integer dtype at every re-binding (dtype inference through helpers). "
          "pandas/json library semantics are not decided.",
          "Trusted: CPython ast; np.array(list, dtype=float) maps None to NaN; json emits what to_dict's plain types contain.",
@@ -45,7 +45,7 @@ CLAIMS = {
          "Static decision of: xmin_eval_num / jacmin_eval_nums / Model.eval_num[_save] are fed only by the point counter and sample-count fields only by sample "
          "counters; at every change_point/add_new_point/save_point call the four record components derive from the same evaluation, with no other evaluation between "
          "it and the read of the point counter (stores made through helpers are checked at the helpers' call sites); extra samples are averaged into the slot that received the first one; slot fields, final selection and hard-restart merge move all components together; each stored objective is "
-         "sumsq(residual)[+h] with h exactly when it may be set; every exit selects through get_final_results. Not decided: 'to rounding', 'resid is the mean'.",
+         "sumsq(residual)[+h] with h exactly when it may be set; every exit selects through get_final_results; evaluation results stored in records are fresh objects (no caller-visible alias of a user return value). Not decided: 'to rounding', 'resid is the mean'.",
          "Trusted: CPython ast, reaching definitions, field-based (flow-insensitive) treatment of object fields.",
          "DESIGN.md 4/C03"),
  "C04": ("typestate data-flow 'pending evaluation result' over the CFG after each evaluate_objective call site; dominator query in soft_restart; finite order-domain "
@@ -60,7 +60,7 @@ CLAIMS = {
          "finiteness-checking scipy.linalg routines in logging-only code",
          "Static decision that selection is NaN-total (a NaN candidate never replaces a finite holder, a finite candidate replaces a NaN holder, empty slot filled, "
          "guard never raises; each row decided by walking the CFG to the store), that arg-min over stored objective values ignores NaN and the re-selection after a re-sample cannot be "
-         "skipped, that no try statement can swallow an exception raised by the user's objective, and that code running only under a logging option cannot raise on non-finite data. "
+         "skipped, that no try statement can swallow an exception raised by the user's objective, that code running only under a logging option cannot raise on non-finite data, and that every step solver is reached only after the interpolated model was tested finite. "
          "Termination / finiteness of the returned x under faults are not decided.",
          "Trusted: IEEE comparison semantics of NaN as implemented in the table evaluator; numpy.nanargmin ignores NaN.",
          "DESIGN.md 4/C08"),
@@ -84,21 +84,21 @@ CLAIMS = {
          "frame interpretation of projector lists and callback arguments per configuration",
          "Static decision of the pass-through and frame clauses only: every call of role h/prox_uh/objfun star-expands exactly the tuple of its own role; no user tuple is "
          "star-expanded into a fixed-arity internal callee and no None default can be star-expanded; every projector handed to dykstra acts in the frame of the projected point; "
-         "callbacks are evaluated in user coordinates. Convergence to the regularised optimum is numerical and NOT decided.",
+         "callbacks are evaluated in user coordinates; every regularised sub-problem solver is called over the whole box/projection list of the problem (C06-6). Convergence to the regularised optimum is numerical and NOT decided.",
          "Trusted: CPython ast; the frame algebra of dfv/frames.py.",
          "DESIGN.md 4/C06"),
  "C09": ("frame/exactness interpretation under the configurations with projections, mutation inventory of every list that may hold user projections, interpreter run with "
          "scaling and projections both requested, lower-bound check of the sweep budget (parameter table range + every max_iter argument)",
          "Static decision that with projections every x handed to objfun (x0 included) is the unmodified output of a Dykstra call whose last projector clamps against copies of "
          "the user's bounds; that the projection list is a fresh list with the box appended once after all user projectors and never mutated afterwards; that scaling is None "
-         "whenever projections are given; that every Dykstra call performs at least one sweep (max_iter >= 1 at each call site). The sqrt(p*tol) distance bound itself is numerical (its premises are C15-3/4).",
+         "whenever projections are given; that every Dykstra call performs at least one sweep (max_iter >= 1 at each call site); the point handed to a user projector is never read again (C09-3c). The sqrt(p*tol) distance bound itself is numerical (its premises are C15-3/4).",
          "Trusted: dykstra summary (result = last projector's output, C15-2); at least one sweep runs.",
          "DESIGN.md 4/C09"),
  "C11": ("must-pass-through queries pairing the Jacobian assignment with the label snapshot, value-flow alias query (no .copy()-free path from Model.eval_num to the stored labels), "
          "role provenance of the labels, shape/guard/loop analysis of the single un-scaling statement in solve",
          "Static decision that matrix and labels are produced and travel together (interpolation, saved slot, final selection, hard-restart merge), that the label snapshot is a copy, "
          "that labels are point numbers, and that the returned Jacobian is rescaled exactly once (column i divided by scaling_changes[1][i], outside every other loop, under exactly "
-         "`scaling_changes is not None and jacmin is not None`). Equality with an independent fit is numerical and not decided.",
+         "`scaling_changes is not None and jacmin is not None`); every entry method of Model that can write the matrix can write the labels and vice versa (effect summaries); the design matrix of the interpolation system is built from the stored evaluated positions; logging/diagnostic observers do not write solver state. Equality with an independent fit is numerical and not decided.",
          "Trusted: CPython ast; CFG; np.ndarray.copy() returns a fresh array.",
          "DESIGN.md 4/C11"),
  "C12": ("reaching definitions on every return of trsbox/alt_trust_step, shape check of d_within_bounds, loop-form lint and call-graph recursion check, "
@@ -126,7 +126,7 @@ CLAIMS = {
          "inner iteration over affine normal forms",
          "Static decision that dykstra performs at most max_iter sweeps, that its result is exactly the last projector's output, and of the two premises of the sqrt(p*tol) feasibility "
          "bound (the stopping quantity sums the squared change of every correction vector of the sweep; each sub-step moves x by exactly the change of its correction vector; the loop "
-         "tests the caller's tol / max_iter, which are never re-assigned), and that pbox is an exact two-sided clamp of its arguments. "
+         "tests the caller's tol / max_iter, which are never re-assigned), that pbox is an exact two-sided clamp of its arguments, and that the value handed to a projector is not reused after the call (a projector may modify its argument). "
          "Distances and 1e-3 optimality are numerical and NOT decided.",
          "Trusted: CPython ast; integer-coefficient affine arithmetic of dfv/affine.py.",
          "DESIGN.md 4/C15"),
@@ -151,14 +151,14 @@ CLAIMS = {
          "interval reasoning over the if-chain of reduce_rho and the parameter-table ranges (rho stays in [rhoend, old rho])",
          "Static decision that delta >= rho is provable at every break/continue/return and recording point, that rho has its four writers with non-increasing reducer cases, that growth "
          "of delta is wrapped in min(., 1e10), that the controller's and the main loop's rhoend are rescaled identically, and that the diagnostic table gets exactly one append per "
-         "column per recorded iteration with documented columns; and, by interval reasoning over the cases of reduce_rho and the inclusive ranges of the parameter table, that "
+         "column per recorded iteration with documented columns, the recorded best point/objective are those of the final selection (better of saved point and incumbent) and at most one row is recorded per iteration; rhobeg/rhoend are not re-assigned between validation and the first run; and, by interval reasoning over the cases of reduce_rho and the inclusive ranges of the parameter table, that "
          "rhoend <= rho, rho > 0 and rho never increases within a run (restart factor of rhoend in (0, 1]). Monotone best objective and 2 <= npt <= max depend on values and are NOT decided.",
          "Trusted: rhobeg > rhoend > 0 on entry (validated by solve, C07-3); floating-point sqrt/multiplication monotone (the interval reasoning is over the reals).",
          "DESIGN.md 4/C18"),
  "C19": ("guarded taint over the call graph (global-RNG uses vs documented random options, dominance-based guards; documented random options proved off by default from the parameter table), nondeterminism/hidden-state inventory, flow-sensitive ownership "
          "lattice {caller, fresh} over solve with alias summaries of callees",
          "Static decision that every numpy.random use reachable from solve is guarded on every call path by an option documented as random (one checked exception), that no other "
-         "nondeterminism or hidden state exists (globals, process-dependent calls, set iteration, mutated default arguments, mutable objects in class bodies), and that caller-owned mutable arguments are copied before any in-place operation and never handed on un-copied. The statement is "
+         "nondeterminism or hidden state exists (globals, process-dependent calls, set iteration, mutated default arguments, mutable objects in class bodies, library routines that draw their own random start vector, e.g. ARPACK without v0=), and that caller-owned mutable arguments are copied before any in-place operation and never handed on un-copied. The statement is "
          "structural apart from the determinism of NumPy/SciPy kernels, which is trusted.",
          "Trusted: copy/view semantics of astype/asarray/slicing/list(); frozen table of documented random options in dfv/tables.py.",
          "DESIGN.md 4/C19"),
